@@ -111,9 +111,7 @@ def stepOp (wkc : Option Nat) (impl : Option Str) (root : Site) (op : String) : 
           if !(root.links.all (fun l => l.attrs.all (fun kv => asciiKey kv.1))) ||
               !(qs.all (fun q => match splitEq q with | some kv => asciiKey kv.1 | none => true))
           then .oom
-          else match wkcRender root.links impl qs with
-            | none => .oom
-            | some ls => .out root ("L:" ++ ",".intercalate (ls.map showLink))
+          else .out root ("L:" ++ ",".intercalate ((wkcRender root.links impl qs).map showLink))
         else .out root s!"H:{h.id}:{showPath h.seen}:{showPath (uriSegs h.orig)}"
     | _, _, _ => .bad
   | _ => .bad
